@@ -10,6 +10,8 @@ CHECKS = {
     "C02": ("codec", True),
     "C16": ("codec", True),
     "C04": ("c04", False),
+    "C07": ("c07", False),
+    "C12": ("c12", False),
 }
 
 
